@@ -699,3 +699,79 @@ def b_isinstance2(I, x, t):
 
 
 b_isinstance = b_isinstance2
+
+
+# ------------------------------------------------------------------ symbolic set abstraction
+class SymSet:
+    """a Python set of integers abstracted to (cardinality class, the element when it is a
+    singleton): card == 0 empty, card == 1 exactly {elem}, card >= 2 at least two distinct
+    elements.  Exact for programs that only update the set and compare len() with 0/1."""
+    pyvc_symbolic = True
+
+    def __init__(self, card, elem):
+        self.card = card
+        self.elem = elem
+
+    @staticmethod
+    def empty():
+        return SymSet(z3.IntVal(0), z3.IntVal(0))
+
+    def pyvc_len(self, I):
+        return self.card
+
+    def pyvc_truthy(self, I):
+        return self.card > 0
+
+    def pyvc_havoc(self, I, nm):
+        c = I.path.fresh_int(nm + ".card")
+        I.path.assume(c >= 0)
+        return SymSet(c, I.path.fresh_int(nm + ".elem"))
+
+    def pyvc_iter(self, I):
+        return _SymSetIter(self)
+
+    def pyvc_getattr(self, I, attr, node):
+        if attr == "update":
+            return LibFunc("set.update", lambda I, xs: self.update(I, xs))
+        if attr == "add":
+            from .values import Arr as _Arr
+            return LibFunc("set.add", lambda I, x: self.update(I, _Arr(1, lambda k: to_term(x), "int")))
+        raise Unsupported("set." + attr + " on a symbolic set")
+
+    def update(self, I, xs):
+        from .lib_numpy import as_arr
+        u = as_arr(I, xs)
+        p = I.path
+        card, elem = self.card, self.elem
+        c2 = p.fresh_int("set.card")
+        e2 = p.fresh_int("set.elem")
+        u0 = u.at(z3.IntVal(0))
+        same0 = spec.forall(0, u.n, lambda k: u.at(k) == u0)
+        samee = spec.forall(0, u.n, lambda k: u.at(k) == elem)
+        p.assume(z3.And(c2 >= card, c2 >= 0))
+        p.assume(z3.Implies(u.n == 0, z3.And(c2 == card, e2 == elem)))
+        p.assume(z3.Implies(z3.And(u.n > 0, card == 0),
+                            z3.And(z3.Implies(same0, c2 == 1), z3.Implies(z3.Not(same0), c2 >= 2), e2 == u0)))
+        p.assume(z3.Implies(z3.And(u.n > 0, card == 1),
+                            z3.And(z3.Implies(samee, z3.And(c2 == 1, e2 == elem)), z3.Implies(z3.Not(samee), c2 >= 2))))
+        p.assume(z3.Implies(card >= 2, c2 >= 2))
+        self.card, self.elem = c2, e2
+        return None
+
+
+class _SymSetIter(IterV):
+    def __init__(self, s):
+        self.s = s
+        self.pos = 0
+
+    def next(self, I, default):
+        if self.pos == 0:
+            self.pos = 1
+            if I.path.branch(self.s.card > 0):
+                if I.path.branch(self.s.card == 1):
+                    return self.s.elem
+                return I.path.fresh_int("set.some")
+            if default:
+                return default[0]
+            raise PyRaise(ExcVal("StopIteration", ()))
+        raise Unsupported("second next() on a symbolic set iterator")
